@@ -348,6 +348,9 @@ func (r *Run) Finish(rule string, minNontrivial int, exhaustive bool) {
 	if cov["samples"] == nil || len(r.samples) == 0 {
 		cov["samples"] = []any{}
 	}
+	if r.assumptions == nil {
+		r.assumptions = []string{}
+	}
 	evd := map[string]any{
 		"property_id": r.Prop,
 		"tier":        r.Tier,
